@@ -30,7 +30,7 @@ shrink_steps = common.rule_case_steps
 
 def generate(run_seed, tier):
     rng = stream(run_seed, "gen")
-    case = G.gen_rule_case(rng, rules=("STV", "STV", "STV", "IRV", "SequentialRCV"), max_c=6 if rng.random() < 0.9 else 7)
+    case = G.gen_rule_case(rng, rules=("STV", "STV", "STV", "IRV", "SequentialRCV", "Alaska"), max_c=6 if rng.random() < 0.9 else 7, tie_bias=0.25)
     case["policies"] = common.gen_policies(rng, run_seed)
     return case
 
@@ -38,15 +38,16 @@ def generate(run_seed, tier):
 def _kind(case):
     if case["rule"] == "SequentialRCV":
         return "seq"
-    if case["rule"] == "STV" and case["kw"].get("transfer") == "random":
+    if case["rule"] in ("STV", "Alaska") and case["kw"].get("transfer") == "random":
         return "random"
     return "frac"
 
 
 def execute(case, trace=False):
     kw = case["kw"]
-    m = kw.get("m", 1)
+    m = kw.get("m", kw.get("m_2", 1))
     quota = kw.get("quota", "droop")
+    inner_rule = "STV" if case["rule"] == "Alaska" else case["rule"]  # Alaska: the STV stage it runs internally is checked
     sim = kw.get("simultaneous", True)
     kind = _kind(case)
     violations, probes, faults, policies = [], {}, {}, {}
@@ -65,8 +66,9 @@ def execute(case, trace=False):
         e = o.election
         if e is None:
             bump(probes, "raised:" + type(o.exc).__name__)
-            # compare the rounds completed before the exception
-            cands = [x for x in o.live if type(x).__name__ == case["rule"]]
+        if e is None or case["rule"] == "Alaska":
+            # compare the rounds completed before the exception / the inner STV stage of Alaska
+            cands = [x for x in o.live if type(x).__name__ == inner_rule]
             e = cands[0] if cands else None
         if e is None:
             traces.append("exc")
